@@ -1,6 +1,799 @@
-//! C48 — not implemented yet.
-use mc_core::Ctx;
+//! C48 — signature primitives verify exactly the signed messages.
+//!
+//! Shape I (bounded-exhaustive single-byte / single-bit mutation). For a fixed set of keys (incl. the boundary
+//! scalars) and messages, on the real `radix_common::crypto` primitives:
+//!   * sign -> verify is true; secp256k1 recovery returns the signer (compressed and uncompressed form agree);
+//!   * every single-bit flip and every single-byte substitution by 00/FF (thorough: by every other value) of
+//!     the signature, of the message and of the public key makes verification fail (and recovery not return
+//!     the signer); every signature also fails against every *other* (key, message) of the set;
+//!   * BLS aggregate / fast-aggregate verification over every list (length 1..=3, duplicates allowed) of
+//!     (key, message) pairs with every component replaced by a signature on another message / by another key /
+//!     by another pair's signature: succeeds <=> the multiset of (signer, message) equals the multiset of
+//!     claimed (key, message) pairs (i.e. every component is valid for its message, up to the order in which
+//!     the aggregate was summed, which the aggregate does not record).
+//! The oracle is the algebraic law of the statement; no second crypto implementation is involved.
+//! Informational only (statement silent): high-s ECDSA twin signatures, empty aggregate lists, infinity points.
+use mc_core::{catch, par_for, Ctx, Level, Local};
+use radix_common::prelude::*;
+use serde_json::{json, Map, Value};
+use std::collections::BTreeMap;
+use std::sync::atomic::{AtomicU64, Ordering};
 
-pub fn run(_ctx: Ctx) -> ! {
-    mc_core::machinery_error("C48: not implemented")
+#[derive(Clone, Copy, PartialEq, Eq, Debug)]
+enum Scheme {
+    Secp,
+    Ed,
+    Bls,
+}
+
+impl Scheme {
+    fn name(&self) -> &'static str {
+        match self {
+            Scheme::Secp => "secp256k1",
+            Scheme::Ed => "ed25519",
+            Scheme::Bls => "bls12381",
+        }
+    }
+    fn from_name(s: &str) -> Option<Scheme> {
+        match s {
+            "secp256k1" => Some(Scheme::Secp),
+            "ed25519" => Some(Scheme::Ed),
+            "bls12381" => Some(Scheme::Bls),
+            _ => None,
+        }
+    }
+}
+
+const SECP_N: [u8; 32] = [
+    0xFF, 0xFF, 0xFF, 0xFF, 0xFF, 0xFF, 0xFF, 0xFF, 0xFF, 0xFF, 0xFF, 0xFF, 0xFF, 0xFF, 0xFF, 0xFE, 0xBA, 0xAE, 0xDC, 0xE6, 0xAF, 0x48, 0xA0, 0x3B, 0xBF, 0xD2, 0x5E, 0x8C, 0xD0, 0x36, 0x41, 0x41,
+];
+const BLS_R: [u8; 32] = [
+    0x73, 0xed, 0xa7, 0x53, 0x29, 0x9d, 0x7d, 0x48, 0x33, 0x39, 0xd8, 0x08, 0x09, 0xa1, 0xd8, 0x05, 0x53, 0xbd, 0xa4, 0x02, 0xff, 0xfe, 0x5b, 0xfe, 0xff, 0xff, 0xff, 0xff, 0x00, 0x00, 0x00, 0x01,
+];
+
+/// big-endian a - b (a >= b)
+fn sub_be(a: &[u8; 32], b: &[u8; 32]) -> [u8; 32] {
+    let mut out = [0u8; 32];
+    let mut borrow = 0i16;
+    for i in (0..32).rev() {
+        let mut d = a[i] as i16 - b[i] as i16 - borrow;
+        if d < 0 {
+            d += 256;
+            borrow = 1;
+        } else {
+            borrow = 0;
+        }
+        out[i] = d as u8;
+    }
+    out
+}
+
+fn small(n: u8) -> [u8; 32] {
+    let mut b = [0u8; 32];
+    b[31] = n;
+    b
+}
+
+fn derived(tag: &str, i: usize) -> [u8; 32] {
+    hash(format!("verif-c48-{tag}-{i}").as_bytes()).0
+}
+
+struct Signed {
+    scheme: Scheme,
+    key: usize,
+    msg_i: usize,
+    key_label: String,
+    pk: Vec<u8>,
+    msg: Vec<u8>,
+    sig: Vec<u8>,
+}
+
+#[derive(Debug, Clone, PartialEq)]
+struct Outcome {
+    verified: bool,
+    /// secp256k1 only: recovered compressed key
+    recovered: Option<Vec<u8>>,
+    recovered_uncompressed: Option<Vec<u8>>,
+}
+
+/// Run the real verification primitives on raw bytes (lengths are the types' fixed lengths).
+fn verify_raw(scheme: Scheme, pk: &[u8], msg: &[u8], sig: &[u8]) -> Result<Outcome, String> {
+    catch(|| match scheme {
+        Scheme::Secp => {
+            let h = Hash(msg.try_into().expect("32-byte hash"));
+            let p = Secp256k1PublicKey(pk.try_into().expect("33-byte key"));
+            let s = Secp256k1Signature(sig.try_into().expect("65-byte signature"));
+            Outcome {
+                verified: verify_secp256k1(&h, &p, &s),
+                recovered: verify_and_recover_secp256k1(&h, &s).map(|k| k.0.to_vec()),
+                recovered_uncompressed: verify_and_recover_secp256k1_uncompressed(&h, &s).map(|k| k.0.to_vec()),
+            }
+        }
+        Scheme::Ed => {
+            let p = Ed25519PublicKey(pk.try_into().expect("32-byte key"));
+            let s = Ed25519Signature(sig.try_into().expect("64-byte signature"));
+            Outcome { verified: verify_ed25519(msg, &p, &s), recovered: None, recovered_uncompressed: None }
+        }
+        Scheme::Bls => {
+            let p = Bls12381G1PublicKey(pk.try_into().expect("48-byte key"));
+            let s = Bls12381G2Signature(sig.try_into().expect("96-byte signature"));
+            Outcome { verified: verify_bls12381_v1(msg, &p, &s), recovered: None, recovered_uncompressed: None }
+        }
+    })
+}
+
+fn case_json(kind: &str, s: &Signed, pk: &[u8], msg: &[u8], sig: &[u8], target: &str, pos: usize) -> Value {
+    json!({
+        "kind": kind, "scheme": s.scheme.name(), "key": s.key_label, "target": target, "position": pos,
+        "signer_public_key": mc_core::hex(&s.pk), "public_key": mc_core::hex(pk), "message": mc_core::hex(msg), "signature": mc_core::hex(sig),
+        "signed_message": mc_core::hex(&s.msg), "original_signature": mc_core::hex(&s.sig),
+    })
+}
+
+/// A changed (pk, msg, sig) triple must not verify; for secp256k1, recovery from the changed (msg, sig) must not
+/// return the key the triple claims (`pk`). `target` = which component differs from what was signed
+/// ("signature" | "message" | "public_key" | "pair" = signature presented for another (key, message)).
+fn check_changed(s: &Signed, pk: &[u8], msg: &[u8], sig: &[u8], target: &str, pos: usize, l: &mut Local, hard: &AtomicU64) {
+    l.eval();
+    let name = s.scheme.name();
+    match verify_raw(s.scheme, pk, msg, sig) {
+        Err(p) => l.violation(format!("{name}:verify-panics:{target}"), format!("verification panicked on a changed {target}: {p} at {}", mc_core::last_panic_location()), case_json("changed", s, pk, msg, sig, target, pos)),
+        Ok(o) => {
+            let mut bad = false;
+            // ECDSA itself (any correct implementation): for z == 0 (mod n) the verification equation is
+            // R = (r/s)*P, and -P gives -R with the same x coordinate, so the *same* signature is valid under
+            // the negated key. Not decided by the implementation => informational, exactly this twin only.
+            let ecdsa_zero_hash_twin = s.scheme == Scheme::Secp
+                && (msg == [0u8; 32] || msg == SECP_N)
+                && msg == &s.msg[..]
+                && sig == &s.sig[..]
+                && pk.len() == 33
+                && pk[1..] == s.pk[1..]
+                && pk[0] == s.pk[0] ^ 1;
+            if o.verified && ecdsa_zero_hash_twin {
+                l.info("ecdsa-zero-hash:negated-key-verifies(mathematical)");
+                l.class("changed-public-key:ecdsa-zero-hash-twin");
+                return;
+            }
+            if o.verified {
+                bad = true;
+                let key = if s.scheme == Scheme::Secp && target == "signature" && pos == 0 {
+                    format!("{name}:verify-ignores-recovery-id")
+                } else {
+                    format!("{name}:verify-accepts-changed-{target}")
+                };
+                l.violation(key, format!("{name} verify returned true although the {target} differs from the signed one (byte {pos})"), case_json("changed", s, pk, msg, sig, target, pos));
+            }
+            if s.scheme == Scheme::Secp {
+                if o.recovered.as_deref() == Some(pk) {
+                    bad = true;
+                    l.violation(format!("{name}:recovery-returns-claimed-key-for-changed-{target}"), format!("recovery returned the claimed key although the {target} differs from the signed one (byte {pos})"), case_json("changed", s, pk, msg, sig, target, pos));
+                }
+                secp_recover_forms_agree(s, &o, pk, msg, sig, l);
+            }
+            if bad {
+                return;
+            }
+            if target == "pair" {
+                hard.fetch_add(1, Ordering::Relaxed);
+                l.class("other-pair:rejected");
+            } else if s.scheme == Scheme::Secp && target != "public_key" && o.recovered.is_some() {
+                // recovery produced *some other* key: the changed input got through parsing to the curve arithmetic
+                hard.fetch_add(1, Ordering::Relaxed);
+                l.class("changed:recovers-a-different-key");
+            } else {
+                l.class(match target {
+                    "signature" => "changed-signature:rejected",
+                    "message" => "changed-message:rejected",
+                    _ => "changed-public-key:rejected",
+                });
+            }
+        }
+    }
+}
+
+fn secp_recover_forms_agree(s: &Signed, o: &Outcome, pk: &[u8], msg: &[u8], sig: &[u8], l: &mut Local) {
+    match (&o.recovered, &o.recovered_uncompressed) {
+        (None, None) => {}
+        (Some(c), Some(u)) if u.len() == 65 && c.len() == 33 && u[0] == 4 && u[1..33] == c[1..33] && (c[0] == 2 || c[0] == 3) && (u[64] & 1) == (c[0] & 1) => {}
+        (c, u) => l.violation(
+            "secp256k1:recover-compressed-vs-uncompressed",
+            format!("compressed recovery {:?} and uncompressed recovery {:?} do not denote the same point", c.as_ref().map(|x| mc_core::hex(x)), u.as_ref().map(|x| mc_core::hex(x))),
+            case_json("recover-forms", s, pk, msg, sig, "signature", 0),
+        ),
+    }
+}
+
+fn candidates(orig: u8, thorough: bool) -> Vec<u8> {
+    if thorough {
+        (0..=255u8).filter(|v| *v != orig).collect()
+    } else {
+        let mut v: Vec<u8> = (0..8).map(|b| orig ^ (1 << b)).collect();
+        for x in [0x00u8, 0xFF] {
+            if x != orig && !v.contains(&x) {
+                v.push(x);
+            }
+        }
+        v
+    }
+}
+
+fn check_valid(s: &Signed, l: &mut Local) -> bool {
+    l.eval();
+    let name = s.scheme.name();
+    match verify_raw(s.scheme, &s.pk, &s.msg, &s.sig) {
+        Err(p) => {
+            l.violation(format!("{name}:verify-panics:valid"), format!("verification of a fresh signature panicked: {p}"), case_json("valid", s, &s.pk, &s.msg, &s.sig, "none", 0));
+            false
+        }
+        Ok(o) => {
+            let mut ok = true;
+            if !o.verified {
+                ok = false;
+                l.violation(format!("{name}:valid-signature-rejected"), format!("{name}: signature by key {} does not verify", s.key_label), case_json("valid", s, &s.pk, &s.msg, &s.sig, "none", 0));
+            }
+            if s.scheme == Scheme::Secp {
+                if o.recovered.as_deref() != Some(&s.pk[..]) {
+                    ok = false;
+                    l.violation("secp256k1:recovery-does-not-return-signer", format!("recovered {:?}, signer {}", o.recovered.as_ref().map(|x| mc_core::hex(x)), mc_core::hex(&s.pk)), case_json("valid", s, &s.pk, &s.msg, &s.sig, "none", 0));
+                }
+                secp_recover_forms_agree(s, &o, &s.pk, &s.msg, &s.sig, l);
+            }
+            if ok {
+                l.class(match s.scheme {
+                    Scheme::Secp => "valid:secp256k1-verified-and-recovered",
+                    Scheme::Ed => "valid:ed25519-verified",
+                    Scheme::Bls => "valid:bls12381-verified",
+                });
+                l.sample(|| json!({"scheme": name, "key": s.key_label, "public_key": mc_core::hex(&s.pk), "message": mc_core::hex(&s.msg), "signature": mc_core::hex(&s.sig)}));
+            }
+            ok
+        }
+    }
+}
+
+// ------------------------------------------------------------------------------------------------
+// key / message sets
+// ------------------------------------------------------------------------------------------------
+
+fn secp_keys(thorough: bool) -> Vec<(String, [u8; 32])> {
+    let mut v = vec![
+        ("scalar-1".to_string(), small(1)),
+        ("scalar-n-1".to_string(), sub_be(&SECP_N, &small(1))),
+        ("derived-0".to_string(), derived("secp", 0)),
+        ("derived-1".to_string(), derived("secp", 1)),
+    ];
+    if thorough {
+        v.push(("scalar-2".into(), small(2)));
+        v.push(("scalar-3".into(), small(3)));
+        v.push(("scalar-n-2".into(), sub_be(&SECP_N, &small(2))));
+        let mut half = SECP_N; // (n-1)/2 : shift right by one
+        let mut carry = 0u8;
+        for b in half.iter_mut() {
+            let nc = *b & 1;
+            *b = (*b >> 1) | (carry << 7);
+            carry = nc;
+        }
+        v.push(("scalar-(n-1)/2".into(), half));
+        for i in 2..6 {
+            v.push((format!("derived-{i}"), derived("secp", i)));
+        }
+    }
+    v
+}
+
+fn hashes(thorough: bool) -> Vec<Vec<u8>> {
+    let mut v = vec![vec![0u8; 32], vec![0xFF; 32], derived("msg", 0).to_vec(), derived("msg", 1).to_vec()];
+    if thorough {
+        v.push(SECP_N.to_vec()); // z = n  (== 0 mod n)
+        v.push(sub_be(&SECP_N, &small(1)).to_vec());
+        v.push(small(1).to_vec());
+        v.push(derived("msg", 2).to_vec());
+    }
+    v
+}
+
+fn var_messages(thorough: bool) -> Vec<Vec<u8>> {
+    let mut v = vec![vec![], vec![0x00], derived("vmsg", 0).to_vec(), (0..100u8).collect::<Vec<u8>>()];
+    if thorough {
+        v.push(vec![0xFF]);
+        v.push((0..33u8).map(|i| i.wrapping_mul(29)).collect());
+    }
+    v
+}
+
+fn ed_seeds(thorough: bool) -> Vec<(String, [u8; 32])> {
+    let mut v = vec![("seed-zero".to_string(), [0u8; 32]), ("seed-ones".to_string(), [0xFF; 32]), ("derived-0".to_string(), derived("ed", 0)), ("derived-1".to_string(), derived("ed", 1))];
+    if thorough {
+        v.push(("seed-1".into(), small(1)));
+        for i in 2..5 {
+            v.push((format!("derived-{i}"), derived("ed", i)));
+        }
+    }
+    v
+}
+
+fn bls_scalar(tag: &str, i: usize) -> [u8; 32] {
+    let mut b = derived(tag, i);
+    b[0] &= 0x3f; // < r
+    b
+}
+
+fn bls_keys(thorough: bool) -> Vec<(String, [u8; 32])> {
+    let mut v = vec![("scalar-1".to_string(), small(1)), ("scalar-r-1".to_string(), sub_be(&BLS_R, &small(1))), ("derived-0".to_string(), bls_scalar("bls", 0))];
+    if thorough {
+        v.push(("derived-1".into(), bls_scalar("bls", 1)));
+        v.push(("derived-2".into(), bls_scalar("bls", 2)));
+        v.push(("scalar-2".into(), small(2)));
+    }
+    v
+}
+
+fn sign_all(ctx: &Ctx, thorough: bool) -> Vec<Signed> {
+    let mut out = vec![];
+    let mut l = Local::new();
+    for (ki, (label, sk)) in secp_keys(thorough).iter().enumerate() {
+        let Ok(k) = Secp256k1PrivateKey::from_bytes(sk) else {
+            l.violation("secp256k1:valid-secret-scalar-rejected", format!("secret scalar {label} rejected"), json!({"kind": "key", "scheme": "secp256k1", "key": label}));
+            continue;
+        };
+        let pk = k.public_key().0.to_vec();
+        for (mi, m) in hashes(thorough).iter().enumerate() {
+            let h = Hash(m.as_slice().try_into().unwrap());
+            match catch(|| k.sign(&h)) {
+                Ok(sig) => out.push(Signed { scheme: Scheme::Secp, key: ki, msg_i: mi, key_label: label.clone(), pk: pk.clone(), msg: m.clone(), sig: sig.0.to_vec() }),
+                Err(p) => l.violation("secp256k1:sign-panics", format!("sign panicked: {p}"), json!({"kind": "key", "scheme": "secp256k1", "key": label, "message": mc_core::hex(m)})),
+            }
+        }
+    }
+    for (ki, (label, seed)) in ed_seeds(thorough).iter().enumerate() {
+        let Ok(k) = Ed25519PrivateKey::from_bytes(seed) else {
+            l.violation("ed25519:valid-seed-rejected", format!("seed {label} rejected"), json!({"kind": "key", "scheme": "ed25519", "key": label}));
+            continue;
+        };
+        let pk = k.public_key().0.to_vec();
+        let mut msgs = hashes(false);
+        msgs.extend(var_messages(thorough));
+        for (mi, m) in msgs.iter().enumerate() {
+            match catch(|| k.sign(m)) {
+                Ok(sig) => out.push(Signed { scheme: Scheme::Ed, key: ki, msg_i: mi, key_label: label.clone(), pk: pk.clone(), msg: m.clone(), sig: sig.0.to_vec() }),
+                Err(p) => l.violation("ed25519:sign-panics", format!("sign panicked: {p}"), json!({"kind": "key", "scheme": "ed25519", "key": label, "message": mc_core::hex(m)})),
+            }
+        }
+    }
+    for (ki, (label, sk)) in bls_keys(thorough).iter().enumerate() {
+        let Ok(k) = Bls12381G1PrivateKey::from_bytes(sk) else {
+            l.violation("bls12381:valid-secret-scalar-rejected", format!("secret scalar {label} rejected"), json!({"kind": "key", "scheme": "bls12381", "key": label}));
+            continue;
+        };
+        let pk = k.public_key().0.to_vec();
+        for (mi, m) in var_messages(thorough).iter().enumerate() {
+            match catch(|| k.sign_v1(m)) {
+                Ok(sig) => out.push(Signed { scheme: Scheme::Bls, key: ki, msg_i: mi, key_label: label.clone(), pk: pk.clone(), msg: m.clone(), sig: sig.0.to_vec() }),
+                Err(p) => l.violation("bls12381:sign-panics", format!("sign panicked: {p}"), json!({"kind": "key", "scheme": "bls12381", "key": label, "message": mc_core::hex(m)})),
+            }
+        }
+    }
+    ctx.merge(l);
+    out
+}
+
+// ------------------------------------------------------------------------------------------------
+// BLS aggregates
+// ------------------------------------------------------------------------------------------------
+
+#[derive(Clone, Copy, Debug, PartialEq, Eq)]
+enum Comp {
+    Good,
+    WrongMsg,
+    WrongKey,
+    OtherPair,
+}
+const COMPS: [Comp; 4] = [Comp::Good, Comp::WrongMsg, Comp::WrongKey, Comp::OtherPair];
+
+struct AggWorld {
+    sks: Vec<Bls12381G1PrivateKey>,
+    pks: Vec<Bls12381G1PublicKey>,
+    msgs: Vec<Vec<u8>>,
+    alts: Vec<Vec<u8>>,
+}
+
+// Bls12381G1PrivateKey wraps a plain scalar; it is only read (sign) from the workers.
+unsafe impl Sync for AggWorld {}
+
+fn agg_world() -> AggWorld {
+    // derived (not small) scalars: no linear relation between the keys is known, so the formal
+    // multiset comparison below is the exact success criterion
+    let sks: Vec<Bls12381G1PrivateKey> = (0..3).map(|i| Bls12381G1PrivateKey::from_bytes(&bls_scalar("bls-agg", i)).expect("derived BLS scalar")).collect();
+    let pks = sks.iter().map(|k| k.public_key()).collect();
+    AggWorld { sks, pks, msgs: vec![vec![], vec![0x01], derived("agg-msg", 2).to_vec()], alts: vec![vec![0x00], vec![0x01, 0x00], derived("agg-alt", 2).to_vec()] }
+}
+
+/// One aggregate scenario. `list` = key indices of the claimed pairs, `same_msg` = all pairs claim message 0
+/// (the fast-aggregate shape), `comps` = what each component signature really signs.
+fn agg_scenario(w: &AggWorld, list: &[usize], same_msg: bool, comps: &[Comp]) -> (Vec<(Bls12381G1PublicKey, Vec<u8>)>, Vec<Bls12381G2Signature>, bool) {
+    let claimed_msg = |i: usize| if same_msg { w.msgs[0].clone() } else { w.msgs[i].clone() };
+    let mut claimed: Vec<(usize, Vec<u8>)> = vec![];
+    let mut signed: Vec<(usize, Vec<u8>)> = vec![];
+    let mut sigs = vec![];
+    for (p, &i) in list.iter().enumerate() {
+        let j = (i + 1) % 3;
+        let (signer, m) = match comps[p] {
+            Comp::Good => (i, claimed_msg(i)),
+            Comp::WrongMsg => (i, w.alts[i].clone()),
+            Comp::WrongKey => (j, claimed_msg(i)),
+            Comp::OtherPair => (j, if same_msg { w.alts[j].clone() } else { w.msgs[j].clone() }),
+        };
+        sigs.push(w.sks[signer].sign_v1(&m));
+        signed.push((signer, m));
+        claimed.push((i, claimed_msg(i)));
+    }
+    let pairs = claimed.iter().map(|(i, m)| (w.pks[*i], m.clone())).collect();
+    claimed.sort();
+    signed.sort();
+    (pairs, sigs, claimed == signed)
+}
+
+fn check_aggregate(w: &AggWorld, list: &[usize], same_msg: bool, comps: &[Comp], l: &mut Local, hard: &AtomicU64) {
+    let (pairs, sigs, expect) = agg_scenario(w, list, same_msg, comps);
+    let all_good = comps.iter().all(|c| *c == Comp::Good);
+    let case = || json!({"kind": "bls-aggregate", "list": list, "same_message": same_msg, "components": comps.iter().map(|c| format!("{c:?}")).collect::<Vec<_>>(), "expected": expect});
+    // the two aggregators must agree with each other on well-formed signatures
+    let agg = match catch(|| (Bls12381G2Signature::aggregate(&sigs, true), Bls12381G2Signature::aggregate_anemone(&sigs))) {
+        Ok((Ok(a), Ok(b))) if a == b => a,
+        other => {
+            l.eval();
+            l.violation("bls12381:aggregate-of-valid-signatures-fails", format!("aggregate / aggregate_anemone of well-formed signatures: {other:?}"), case());
+            return;
+        }
+    };
+    let mut run = |name: &str, f: &dyn Fn() -> bool| {
+        l.eval();
+        match catch(f) {
+            Err(p) => l.violation(format!("bls12381:{name}-panics"), format!("{name} panicked: {p}"), case()),
+            Ok(got) if got == expect => {
+                if expect && !all_good {
+                    l.info("aggregate-valid-up-to-component-order");
+                }
+                if !expect {
+                    hard.fetch_add(1, Ordering::Relaxed);
+                }
+                l.class(&format!("{name}:{}", if expect { "accepted-all-components-valid" } else { "rejected-some-component-invalid" }));
+            }
+            Ok(got) => {
+                let key = if expect { format!("bls12381:{name}-rejects-valid-aggregate") } else { format!("bls12381:{name}-accepts-invalid-component") };
+                l.violation(key, format!("{name} returned {got}, but the components {comps:?} for pairs {list:?} (same_message={same_msg}) make the aggregate {}", if expect { "valid" } else { "invalid" }), case());
+            }
+        }
+    };
+    run("aggregate_verify", &|| aggregate_verify_bls12381_v1(&pairs, &agg));
+    if same_msg {
+        let pks: Vec<Bls12381G1PublicKey> = pairs.iter().map(|p| p.0).collect();
+        let m = pairs[0].1.clone();
+        run("fast_aggregate_verify", &|| fast_aggregate_verify_bls12381_v1(&m, &pks, &agg));
+        run("fast_aggregate_verify_anemone", &|| fast_aggregate_verify_bls12381_v1_anemone(&m, &pks, &agg));
+    }
+    if list.len() == 1 {
+        run("verify(single)", &|| verify_bls12381_v1(&pairs[0].1, &pairs[0].0, &agg));
+    }
+}
+
+fn all_lists(max_len: usize) -> Vec<Vec<usize>> {
+    let mut out = vec![];
+    for n in 1..=max_len {
+        mc_core::gen::seqs_exact(3, n, &mut |s| out.push(s.to_vec()));
+    }
+    out
+}
+
+/// Every single-byte change of the aggregate signature, of each claimed key and of each claimed message of
+/// one valid 3-pair aggregate.
+fn aggregate_mutation_items(w: &AggWorld, same_msg: bool) -> (Vec<(Bls12381G1PublicKey, Vec<u8>)>, Bls12381G2Signature, Vec<(u8, usize, usize)>) {
+    let (pairs, sigs, _) = agg_scenario(w, &[0, 1, 2], same_msg, &[Comp::Good; 3]);
+    let agg = Bls12381G2Signature::aggregate(&sigs, true).expect("aggregate");
+    let mut items = vec![];
+    for pos in 0..96 {
+        items.push((0u8, 0usize, pos));
+    }
+    for (i, (_, m)) in pairs.iter().enumerate() {
+        for pos in 0..48 {
+            items.push((1, i, pos));
+        }
+        for pos in 0..m.len() {
+            items.push((2, i, pos));
+        }
+        items.push((3, i, 0)); // append one byte / drop last byte
+    }
+    (pairs, agg, items)
+}
+
+fn replay(ctx: Ctx, case: Value) -> ! {
+    let mut l = Local::new();
+    let hard = AtomicU64::new(0);
+    let gs = |k: &str| case.get(k).and_then(|x| x.as_str()).unwrap_or("").to_string();
+    match gs("kind").as_str() {
+        "changed" | "valid" | "recover-forms" => {
+            let scheme = Scheme::from_name(&gs("scheme")).unwrap_or_else(|| mc_core::machinery_error("C48 replay: unknown scheme"));
+            let s = Signed { scheme, key: 0, msg_i: 0, key_label: gs("key"), pk: mc_core::unhex(&gs("signer_public_key")), msg: mc_core::unhex(&gs("signed_message")), sig: mc_core::unhex(&gs("original_signature")) };
+            let (pk, msg, sig) = (mc_core::unhex(&gs("public_key")), mc_core::unhex(&gs("message")), mc_core::unhex(&gs("signature")));
+            println!("REPLAY {} original: {:?}", scheme.name(), verify_raw(scheme, &s.pk, &s.msg, &s.sig));
+            println!("REPLAY {} given   : {:?}", scheme.name(), verify_raw(scheme, &pk, &msg, &sig));
+            if gs("kind") == "valid" {
+                check_valid(&s, &mut l);
+            } else {
+                check_changed(&s, &pk, &msg, &sig, &gs("target"), case.get("position").and_then(|p| p.as_u64()).unwrap_or(0) as usize, &mut l, &hard);
+            }
+        }
+        "bls-aggregate" => {
+            let w = agg_world();
+            let list: Vec<usize> = case["list"].as_array().map(|a| a.iter().map(|x| x.as_u64().unwrap_or(0) as usize).collect()).unwrap_or_default();
+            let comps: Vec<Comp> = case["components"].as_array().map(|a| a.iter().map(|x| COMPS.iter().copied().find(|c| format!("{c:?}") == x.as_str().unwrap_or("")).unwrap_or(Comp::Good)).collect()).unwrap_or_default();
+            let same = case["same_message"].as_bool().unwrap_or(false);
+            check_aggregate(&w, &list, same, &comps, &mut l, &hard);
+            println!("REPLAY aggregate list={list:?} same_message={same} components={comps:?}");
+        }
+        "bls-aggregate-changed" => {
+            let pairs: Vec<(Bls12381G1PublicKey, Vec<u8>)> = case["pairs"]
+                .as_array()
+                .map(|a| a.iter().map(|p| (Bls12381G1PublicKey(mc_core::unhex(p[0].as_str().unwrap_or("")).try_into().unwrap_or([0; 48])), mc_core::unhex(p[1].as_str().unwrap_or("")))).collect())
+                .unwrap_or_default();
+            let sig = Bls12381G2Signature(mc_core::unhex(&gs("signature")).try_into().unwrap_or([0; 96]));
+            let got = catch(|| aggregate_verify_bls12381_v1(&pairs, &sig));
+            println!("REPLAY aggregate_verify on the recorded (changed) pairs/signature = {got:?} (must be false)");
+            l.eval();
+            if !matches!(got, Ok(false)) {
+                l.violation("bls12381:aggregate-accepts-changed-input", format!("{got:?}"), case.clone());
+            }
+        }
+        other => mc_core::machinery_error(&format!("C48 replay: unknown case kind {other:?}")),
+    }
+    ctx.merge(l);
+    ctx.finish(Level::Exploration, "replay of one case", 0, false, Map::new(), &[])
+}
+
+pub fn run(ctx: Ctx) -> ! {
+    if let Some(case) = ctx.read_replay_case() {
+        replay(ctx, case);
+    }
+    let thorough = !ctx.quick();
+    let hard = AtomicU64::new(0);
+
+    // ---- sign everything, verify the fresh signatures
+    let signed = sign_all(&ctx, thorough);
+    let mut l = Local::new();
+    let mut n_valid = 0u64;
+    for s in &signed {
+        if check_valid(s, &mut l) {
+            n_valid += 1;
+        }
+    }
+    // ---- informational: high-s twin of every secp256k1 signature (not a single-byte change)
+    for s in signed.iter().filter(|s| s.scheme == Scheme::Secp) {
+        let sv: [u8; 32] = s.sig[33..65].try_into().unwrap();
+        let mut twin = s.sig.clone();
+        twin[33..65].copy_from_slice(&sub_be(&SECP_N, &sv));
+        twin[0] ^= 1;
+        l.eval();
+        match verify_raw(Scheme::Secp, &s.pk, &s.msg, &twin) {
+            Ok(o) => {
+                l.info(if o.verified { "high-s-twin:verify-accepts" } else { "high-s-twin:verify-rejects" });
+                l.info(if o.recovered.as_deref() == Some(&s.pk[..]) { "high-s-twin:recovery-returns-signer" } else { "high-s-twin:recovery-does-not-return-signer" });
+            }
+            Err(_) => l.info("high-s-twin:panics"),
+        }
+    }
+    ctx.merge(l);
+
+    // ---- every signature against every other (key, message) of its scheme
+    {
+        let idx: Vec<usize> = (0..signed.len()).collect();
+        par_for(&ctx, &idx, |&a, l| {
+            let s = &signed[a];
+            for t in signed.iter().filter(|t| t.scheme == s.scheme && (t.key != s.key || t.msg_i != s.msg_i)) {
+                // s's signature presented for t's (key, message); when only the key differs this is a key
+                // change, when only the message differs a message change
+                if t.pk == s.pk && t.msg == s.msg {
+                    continue;
+                }
+                check_changed(s, &t.pk, &t.msg, &s.sig, "pair", 0, l, &hard);
+            }
+        });
+    }
+
+    // ---- single-byte / single-bit changes
+    let mut items: Vec<(usize, u8, usize)> = vec![]; // (signed idx, target 0=sig 1=msg 2=pk 3=msg length, position)
+    for (si, s) in signed.iter().enumerate() {
+        for pos in 0..s.sig.len() {
+            items.push((si, 0, pos));
+        }
+        for pos in 0..s.msg.len() {
+            items.push((si, 1, pos));
+        }
+        for pos in 0..s.pk.len() {
+            items.push((si, 2, pos));
+        }
+        if s.scheme != Scheme::Secp {
+            items.push((si, 3, 0));
+        }
+    }
+    par_for(&ctx, &items, |&(si, target, pos), l| {
+        let s = &signed[si];
+        match target {
+            0 => {
+                let mut sig = s.sig.clone();
+                for v in candidates(s.sig[pos], thorough) {
+                    sig[pos] = v;
+                    check_changed(s, &s.pk, &s.msg, &sig, "signature", pos, l, &hard);
+                }
+            }
+            1 => {
+                let mut msg = s.msg.clone();
+                for v in candidates(s.msg[pos], thorough) {
+                    msg[pos] = v;
+                    check_changed(s, &s.pk, &msg, &s.sig, "message", pos, l, &hard);
+                }
+            }
+            2 => {
+                let mut pk = s.pk.clone();
+                for v in candidates(s.pk[pos], thorough) {
+                    pk[pos] = v;
+                    check_changed(s, &pk, &s.msg, &s.sig, "public_key", pos, l, &hard);
+                }
+            }
+            _ => {
+                // variable-length messages: one byte appended / last byte dropped
+                for extra in [0x00u8, 0x01, 0xFF] {
+                    let mut msg = s.msg.clone();
+                    msg.push(extra);
+                    check_changed(s, &s.pk, &msg, &s.sig, "message", s.msg.len(), l, &hard);
+                }
+                if !s.msg.is_empty() {
+                    check_changed(s, &s.pk, &s.msg[..s.msg.len() - 1], &s.sig, "message", s.msg.len() - 1, l, &hard);
+                }
+            }
+        }
+    });
+
+    // ---- BLS aggregates
+    let w = agg_world();
+    let mut scenarios: Vec<(Vec<usize>, bool, Vec<Comp>)> = vec![];
+    for list in all_lists(3) {
+        for same in [false, true] {
+            let mut combos = vec![];
+            mc_core::gen::seqs_exact(4, list.len(), &mut |c| combos.push(c.iter().map(|i| COMPS[*i]).collect::<Vec<_>>()));
+            for c in combos {
+                scenarios.push((list.clone(), same, c));
+            }
+        }
+    }
+    par_for(&ctx, &scenarios, |(list, same, comps), l| check_aggregate(&w, list, *same, comps, l, &hard));
+
+    // single-byte changes of one valid 3-pair aggregate (distinct messages, and one common message)
+    for same in [false, true] {
+        let (pairs, agg, items) = aggregate_mutation_items(&w, same);
+        let label = |what: u8| match what {
+            0 => "aggregate-signature",
+            1 => "aggregate-public-key",
+            _ => "aggregate-message",
+        };
+        par_for(&ctx, &items, |&(what, i, pos), l| {
+            let mut variants: Vec<(Vec<(Bls12381G1PublicKey, Vec<u8>)>, Bls12381G2Signature)> = vec![];
+            match what {
+                0 => {
+                    for v in candidates(agg.0[pos], thorough) {
+                        let mut a = agg;
+                        a.0[pos] = v;
+                        variants.push((pairs.clone(), a));
+                    }
+                }
+                1 => {
+                    for v in candidates(pairs[i].0 .0[pos], thorough) {
+                        let mut p = pairs.clone();
+                        p[i].0 .0[pos] = v;
+                        variants.push((p, agg));
+                    }
+                }
+                2 => {
+                    for v in candidates(pairs[i].1[pos], thorough) {
+                        let mut p = pairs.clone();
+                        p[i].1[pos] = v;
+                        variants.push((p, agg));
+                    }
+                }
+                _ => {
+                    let mut p = pairs.clone();
+                    p[i].1.push(0);
+                    variants.push((p, agg));
+                    if !pairs[i].1.is_empty() {
+                        let mut p = pairs.clone();
+                        p[i].1.pop();
+                        variants.push((p, agg));
+                    }
+                }
+            }
+            for (p, a) in variants {
+                l.eval();
+                let case = || json!({"kind": "bls-aggregate-changed", "same_message": same, "what": label(what), "pair": i, "position": pos,
+                    "pairs": p.iter().map(|(k, m)| json!([mc_core::hex(&k.0), mc_core::hex(m)])).collect::<Vec<_>>(), "signature": mc_core::hex(&a.0)});
+                // with a common message, changing one message breaks the fast-aggregate shape: only aggregate_verify applies
+                let pks: Vec<Bls12381G1PublicKey> = p.iter().map(|x| x.0).collect();
+                let common = same && p.iter().all(|x| x.1 == p[0].1);
+                let r = catch(|| {
+                    let a1 = aggregate_verify_bls12381_v1(&p, &a);
+                    let a2 = common && fast_aggregate_verify_bls12381_v1(&p[0].1, &pks, &a);
+                    let a3 = common && fast_aggregate_verify_bls12381_v1_anemone(&p[0].1, &pks, &a);
+                    (a1, a2, a3)
+                });
+                match r {
+                    Ok((false, false, false)) => l.class(match what {
+                        0 => "changed-aggregate-signature:rejected",
+                        1 => "changed-aggregate-public-key:rejected",
+                        _ => "changed-aggregate-message:rejected",
+                    }),
+                    Ok(got) => l.violation(format!("bls12381:aggregate-accepts-changed-{}", label(what)), format!("(aggregate_verify, fast, fast_anemone) = {got:?} after changing the {} of pair {i} at byte {pos}", label(what)), case()),
+                    Err(pn) => l.violation("bls12381:aggregate-verify-panics", format!("panicked: {pn}"), case()),
+                }
+            }
+        });
+    }
+
+    // ---- informational: shapes the statement does not decide
+    {
+        let mut l = Local::new();
+        let some_sig = w.sks[0].sign_v1(&w.msgs[0]);
+        let mut inf_sig = [0u8; 96];
+        inf_sig[0] = 0xc0;
+        let mut inf_pk = [0u8; 48];
+        inf_pk[0] = 0xc0;
+        let tell = |l: &mut Local, name: &str, r: Result<bool, String>| {
+            l.eval();
+            match r {
+                Ok(b) => l.info(&format!("{name}:{}", if b { "accepts" } else { "rejects" })),
+                Err(_) => l.info(&format!("{name}:panics")),
+            }
+        };
+        tell(&mut l, "aggregate_verify(empty list, valid signature)", catch(|| aggregate_verify_bls12381_v1(&[], &some_sig)));
+        tell(&mut l, "aggregate_verify(empty list, infinity signature)", catch(|| aggregate_verify_bls12381_v1(&[], &Bls12381G2Signature(inf_sig))));
+        tell(&mut l, "fast_aggregate_verify(empty key list)", catch(|| fast_aggregate_verify_bls12381_v1(&w.msgs[0], &[], &some_sig)));
+        tell(&mut l, "fast_aggregate_verify_anemone(empty key list)", catch(|| fast_aggregate_verify_bls12381_v1_anemone(&w.msgs[0], &[], &some_sig)));
+        tell(&mut l, "verify(infinity key, infinity signature)", catch(|| verify_bls12381_v1(&w.msgs[0], &Bls12381G1PublicKey(inf_pk), &Bls12381G2Signature(inf_sig))));
+        tell(&mut l, "aggregate_verify(infinity key, infinity signature)", catch(|| aggregate_verify_bls12381_v1(&[(Bls12381G1PublicKey(inf_pk), w.msgs[0].clone())], &Bls12381G2Signature(inf_sig))));
+        tell(&mut l, "signature aggregate(empty list) is an error", catch(|| Bls12381G2Signature::aggregate(&[], true).is_ok()));
+        ctx.merge(l);
+    }
+
+    // ---- finish
+    let classes: BTreeMap<String, u64> = ctx.classes();
+    let get = |k: &str| classes.get(k).copied().unwrap_or(0);
+    let agg_valid: u64 = classes.iter().filter(|(k, _)| k.ends_with(":accepted-all-components-valid")).map(|(_, v)| *v).sum();
+    let nontrivial = n_valid + agg_valid + hard.load(Ordering::Relaxed);
+    let mut cov = Map::new();
+    let count = |sc: Scheme| signed.iter().filter(|s| s.scheme == sc).count();
+    cov.insert("signatures_signed_and_verified".into(), json!(n_valid));
+    cov.insert("secp256k1_key_message_pairs".into(), json!(count(Scheme::Secp)));
+    cov.insert("ed25519_key_message_pairs".into(), json!(count(Scheme::Ed)));
+    cov.insert("bls12381_key_message_pairs".into(), json!(count(Scheme::Bls)));
+    cov.insert("secp256k1_keys".into(), json!(secp_keys(thorough).iter().map(|k| k.0.clone()).collect::<Vec<_>>()));
+    cov.insert("ed25519_keys".into(), json!(ed_seeds(thorough).iter().map(|k| k.0.clone()).collect::<Vec<_>>()));
+    cov.insert("bls12381_keys".into(), json!(bls_keys(thorough).iter().map(|k| k.0.clone()).collect::<Vec<_>>()));
+    cov.insert("byte_change_set".into(), json!(if thorough { "every position x every other byte value (255)" } else { "every position x {each single-bit flip, 00, FF}" }));
+    cov.insert("changed_signature_rejected".into(), json!(get("changed-signature:rejected")));
+    cov.insert("changed_message_rejected".into(), json!(get("changed-message:rejected")));
+    cov.insert("changed_public_key_rejected".into(), json!(get("changed-public-key:rejected")));
+    cov.insert("changed_inputs_that_recover_a_different_key".into(), json!(get("changed:recovers-a-different-key")));
+    cov.insert("aggregate_scenarios".into(), json!(scenarios.len()));
+    cov.insert("aggregate_scenarios_valid".into(), json!(agg_valid));
+    cov.insert("well_formed_but_wrong_verifications".into(), json!(hard.load(Ordering::Relaxed)));
+    ctx.finish(
+        Level::Exploration,
+        "per scheme: every (key, message) of the stated sets signed and verified; every single-byte change (quick: bit flips + 00/FF; thorough: all 255 values) at every position of signature, message and public key; every signature against every other (key, message); BLS: every list of 1..=3 (key,message) pairs (duplicates allowed) x {distinct messages, common message} x every assignment of {good, wrong message, wrong key, other pair's signature} to the components, and every single-byte change of one valid 3-pair aggregate; a case is one verification call; non-trivial = fresh signatures verified + valid aggregates accepted + well-formed-but-wrong verifications (other key/message/pair, invalid aggregate components, changed inputs that still recover a key) rejected",
+        nontrivial,
+        true,
+        cov,
+        &[
+            "the oracle is the algebraic law of the statement (sign->verify, change->reject); it does not re-implement the curves",
+            "BLS aggregate success criterion = multiset equality of (signer, message) and claimed (key, message); sound because the derived secret scalars have no known linear relation",
+            "high-s ECDSA twins, empty aggregate lists and infinity points are not decided by the statement (informational)",
+        ],
+    )
 }
